@@ -1273,3 +1273,49 @@ V(id='c35-benign-rename-vec', prop='C35', file='mpmath/identification.py',
          ("                if max(abs(v) for v in vec) < maxcoeff:", "                if max(abs(v) for v in rel) < maxcoeff:"),
          ("                    return vec", "                    return rel")],
   expect='silent')
+
+# ---------------------------------------------------------------- C09 -------
+V(id='c09-from-float-52', prop='C09', file='mpmath/libmp/libmpf.py',
+  old="    return from_man_exp(int(m*(1<<53)), e-53, prec, rnd)", new="    return from_man_exp(int(m*(1<<52)), e-52, prec, rnd)",
+  expect='fire:V-R1:from_float')
+V(id='c09-from-float-offset-mismatch', prop='C09', file='mpmath/libmp/libmpf.py',
+  old="    return from_man_exp(int(m*(1<<53)), e-53, prec, rnd)", new="    return from_man_exp(int(m*(1<<64)), e-63, prec, rnd)",
+  expect='fire:V-R1:from_float')
+V(id='c09-from-float-default-prec', prop='C09', file='mpmath/libmp/libmpf.py',
+  old="def from_float(x, prec=53, rnd=round_fast):", new="def from_float(x, prec=52, rnd=round_fast):",
+  expect='fire:V-R1:from_float')
+V(id='c09-from-float-inf-sign', prop='C09', file='mpmath/libmp/libmpf.py',
+  old="    if x == math_float_inf: return finf\n    if x == -math_float_inf: return fninf\n    return from_man_exp(",
+  new="    if x == math_float_inf: return fninf\n    if x == -math_float_inf: return finf\n    return from_man_exp(",
+  expect='fire:V-R1:from_float')
+V(id='c09-convert-rounds-float', prop='C09', file='mpmath/ctx_mp_python.py',
+  old="        if isinstance(x, float): return ctx.make_mpf(from_float(x))",
+  new="        if isinstance(x, float): return ctx.make_mpf(from_float(x, *ctx._prec_rounding))",
+  expect='fire:V-R2:convert')
+V(id='c09-to-float-54', prop='C09', file='mpmath/libmp/libmpf.py',
+  old="    if bc > 53:\n        sign, man, exp, bc = normalize1(sign, man, exp, bc, 53, rnd)",
+  new="    if bc > 54:\n        sign, man, exp, bc = normalize1(sign, man, exp, bc, 54, rnd)",
+  expect='fire:V-R3:to_float')
+V(id='c09-to-float-mode-dropped', prop='C09', file='mpmath/libmp/libmpf.py',
+  old="    if bc > 53:\n        sign, man, exp, bc = normalize1(sign, man, exp, bc, 53, rnd)",
+  new="    if bc > 53:\n        sign, man, exp, bc = normalize1(sign, man, exp, bc, 53, round_down)",
+  expect='fire:V-R3:to_float')
+V(id='c09-to-float-overflow-sign', prop='C09', file='mpmath/libmp/libmpf.py',
+  old="            if sign:\n                return -math_float_inf\n            else:\n                return math_float_inf",
+  new="            return math_float_inf",
+  expect='fire:V-R3:to_float')
+V(id='c09-float-ignores-context-mode', prop='C09', file='mpmath/ctx_mp_python.py',
+  old="    def __float__(s): return to_float(s._mpf_, rnd=s.context._prec_rounding[1])",
+  new="    def __float__(s): return to_float(s._mpf_)",
+  expect='fire:V-R4:_mpf.__float__')
+V(id='c09-complex-parts-swapped', prop='C09', file='mpmath/libmp/libmpc.py',
+  old="    return complex(to_float(re, strict, rnd), to_float(im, strict, rnd))",
+  new="    return complex(to_float(im, strict, rnd), to_float(re, strict, rnd))",
+  expect='fire:V-R4:mpc_to_complex')
+V(id='c09-benign-constructor-single-rounding', prop='C09', file='mpmath/ctx_mp_python.py',
+  old="        if isinstance(x, float): return from_float(x)\n        if isinstance(x, basestring): return from_str(x, prec, rounding)",
+  new="        if isinstance(x, float): return from_float(x, prec, rounding)\n        if isinstance(x, basestring): return from_str(x, prec, rounding)",
+  expect='silent')
+V(id='c09-benign-from-float-64', prop='C09', file='mpmath/libmp/libmpf.py',
+  old="    return from_man_exp(int(m*(1<<53)), e-53, prec, rnd)", new="    return from_man_exp(int(m*(1<<64)), e-64, prec, rnd)",
+  expect='silent')
